@@ -413,5 +413,12 @@ _ADDED4["C06"] += (" Queues of their own on 2-3 threads at once (Stateless.tla: 
 _ADDED4["C09"] += (" Sort under four comparator shapes; a quarter of the dynamic-list executions in an arena that packs blocks back to "
                    "back (the element handed to push / set_at lies directly behind the list's storage); lists of their own on 2-3 "
                    "threads at once with a ThreadSanitizer pass.")
+_ADDED4["C05"] += (" Option structs are temporaries (released as soon as the constructor returns); texts with ASCII runs of 7-33 bytes "
+                   "around whole and truncated sequences; the ThreadSanitizer pass runs on both CPU paths.")
+_ADDED4["C12"] += " Attribute values of up to 1000 bytes."
+_ADDED4["C13"] += " Real scheme names and their customary ports among the components (opaque to the property)."
+_ADDED4["C11"] += " Members moved into a second object under another spelling (letter case) of their key."
+_ADDED4["C18"] += " NULL values also under a value destructor (the destructor is called with NULL; LinkedHash.tla / Cache.tla Destroys5)."
+_ADDED4["C15"] = " acquire_up_to with a minimum beyond everything (2^32, 2^63, SIZE_MAX)."
 for _k, _t in _ADDED4.items():
     CLAIMED[_k]["text"] += _t
